@@ -1355,7 +1355,9 @@ impl ReManager {
             e
         } else {
             match &e.expr {
-                // empty ^ [i, j] --> empty
+                // empty ^ [0, j] --> epsilon (zero iterations are allowed)
+                BaseRegLan::Empty if range.start() == 0 => self.epsilon,
+                // empty ^ [i, j] --> empty if i > 0
                 BaseRegLan::Empty => self.empty,
                 // epsilon ^ [i, j] --> epsilon
                 BaseRegLan::Epsilon => self.epsilon,
